@@ -88,6 +88,7 @@ func c07swallow(c *an.Ctx) {
 		c.FnsAnalysed[f.Name] = true
 		// saved: local ← st.<field> by a top-level statement before the guard is installed
 		saved := map[string]types.Object{}
+		savedIn := map[string]string{} // field → member of the struct local that carries it (saved := T{scope: st.scope, …}, or the result of a helper that builds it)
 		for _, s := range f.Body.List[:guardAt] {
 			an.Assigns(s, func(lhs, rhs ast.Expr, _ token.Token) {
 				if id, ok := lhs.(*ast.Ident); ok && rhs != nil {
@@ -96,63 +97,41 @@ func c07swallow(c *an.Ctx) {
 							saved[fk] = an.ObjOf(info, id)
 						}
 					}
-				}
-			})
-		}
-		hinfo := handler.Info()
-		var recovered types.Object
-		an.InspectOwn(handler, func(n ast.Node) bool {
-			an.Assigns(n, func(lhs, rhs ast.Expr, _ token.Token) {
-				if call, ok := an.Unparen(rhs).(*ast.CallExpr); ok && rhs != nil && an.IsCallTo(hinfo, call, "builtin.recover") {
-					if id, ok := lhs.(*ast.Ident); ok {
-						recovered = an.ObjOf(hinfo, id)
-					}
-				}
-			})
-			return true
-		})
-		// what is known about the recovered value is kept in a register: the variable may be local to an if
-		recFact := func(st *an.State) {
-			if recovered == nil {
-				return
-			}
-			for k, v := range st.Facts {
-				pk := an.PlainKey(k)
-				if pk == an.RoleOf(recovered)+" == nil" || pk == "nil == "+an.RoleOf(recovered) {
-					if v {
-						st.Set("rec", "no")
-					} else {
-						st.Set("rec", "yes")
-					}
-				}
-			}
-		}
-		// (a path on which nothing is known may have recovered something)
-		isRecovered := func(st *an.State) bool { return st.Get("rec") != "no" }
-		x := p.NewExplorer(handler, an.Hooks{
-			Branch: func(x *an.Explorer, cond ast.Expr, val bool, st *an.State) {
-				recFact(st)
-				// `if recover() != nil`
-				if b, ok := an.Unparen(cond).(*ast.BinaryExpr); ok && (b.Op == token.NEQ || b.Op == token.EQL) {
-					for _, pair := range [][2]ast.Expr{{b.X, b.Y}, {b.Y, b.X}} {
-						call, isCall := an.Unparen(pair[0]).(*ast.CallExpr)
-						if isCall && an.IsCallTo(hinfo, call, "builtin.recover") && an.Str(an.Unparen(pair[1])) == "nil" {
-							if (b.Op == token.NEQ) == val {
-								st.Set("rec", "yes")
-							} else {
-								st.Set("rec", "no")
+					if obj := an.ObjOf(info, id); obj != nil {
+						if lit := savedStructLit(p, f, obj); lit != nil {
+							linfo := info
+							if o := p.OwnerFn(lit.Pos()); o != nil {
+								linfo = o.Info()
+							}
+							for _, m := range litMembers(linfo, lit) {
+								if efk := p.FieldKey(linfo, m.val); efk != "" && throughRuntime(p, linfo, m.val) {
+									if _, dup := saved[efk]; !dup {
+										saved[efk] = obj
+										savedIn[efk] = m.name
+									}
+								}
 							}
 						}
 					}
 				}
-			},
+			})
+		}
+		hinfo := handler.Info()
+		recBranch, isRecovered := recTracker(handler)
+		x := p.NewExplorer(handler, an.Hooks{
+			Branch: recBranch,
 			PreAssign: func(x *an.Explorer, lhs, rhs ast.Expr, stmt ast.Node, st *an.State) {
 				fk := p.FieldKey(hinfo, lhs)
 				if fk == "" || rhs == nil || !throughRuntime(p, hinfo, lhs) {
 					return
 				}
-				if id, ok := an.Unparen(rhs).(*ast.Ident); ok && saved[fk] != nil && an.ObjOf(hinfo, id) == saved[fk] {
+				if id, ok := an.Unparen(rhs).(*ast.Ident); ok && saved[fk] != nil && savedIn[fk] == "" && an.ObjOf(hinfo, id) == saved[fk] {
 					st.Set("rest:"+fk, "1")
+				}
+				if savedIn[fk] != "" {
+					if o, member, ok := structMember(p, handler, rhs); ok && o == saved[fk] && member == savedIn[fk] {
+						st.Set("rest:"+fk, "1")
+					}
 				}
 			},
 		})
@@ -200,4 +179,147 @@ func c07swallow(c *an.Ctx) {
 		}
 	}
 	c.Expect("C07.swallow", "functions inside the evaluation that swallow a panic (other than executeTry)", nGuards, 1)
+}
+
+// recTracker follows, through a recover handler, what is known about the recovered value: the Branch hook keeps it
+// in the register "rec" ("yes"/"no") — the variable holding recover()'s result may be local to an if, or there may
+// be none (`if recover() == nil { return }`); isRecovered reports whether a state may have recovered something (a
+// path on which nothing is known counts).
+func recTracker(handler *an.Fn) (func(x *an.Explorer, cond ast.Expr, val bool, st *an.State), func(st *an.State) bool) {
+	hinfo := handler.Info()
+	var recovered types.Object
+	an.InspectOwn(handler, func(n ast.Node) bool {
+		an.Assigns(n, func(lhs, rhs ast.Expr, _ token.Token) {
+			if call, ok := an.Unparen(rhs).(*ast.CallExpr); ok && rhs != nil && an.IsCallTo(hinfo, call, "builtin.recover") {
+				if id, ok := lhs.(*ast.Ident); ok {
+					recovered = an.ObjOf(hinfo, id)
+				}
+			}
+		})
+		return true
+	})
+	branch := func(x *an.Explorer, cond ast.Expr, val bool, st *an.State) {
+		if recovered != nil {
+			for k, v := range st.Facts {
+				pk := an.PlainKey(k)
+				if pk == an.RoleOf(recovered)+" == nil" || pk == "nil == "+an.RoleOf(recovered) {
+					if v {
+						st.Set("rec", "no")
+					} else {
+						st.Set("rec", "yes")
+					}
+				}
+			}
+		}
+		// `if recover() != nil`
+		if b, ok := an.Unparen(cond).(*ast.BinaryExpr); ok && (b.Op == token.NEQ || b.Op == token.EQL) {
+			for _, pair := range [][2]ast.Expr{{b.X, b.Y}, {b.Y, b.X}} {
+				call, isCall := an.Unparen(pair[0]).(*ast.CallExpr)
+				if isCall && an.IsCallTo(hinfo, call, "builtin.recover") && an.Str(an.Unparen(pair[1])) == "nil" {
+					if (b.Op == token.NEQ) == val {
+						st.Set("rec", "yes")
+					} else {
+						st.Set("rec", "no")
+					}
+				}
+			}
+		}
+	}
+	return branch, func(st *an.State) bool { return st.Get("rec") != "no" }
+}
+
+// c07scopeSwap (C07.scope swap-deferred): the lists of the interpreter release their scopes relative to the current
+// chain (`st.scope = st.scope.parent`), many of them by a deferred call that also runs while a failure unwinds.  A
+// function inside the evaluation that switches Runtime.scope to another chain altogether (the content closure runs
+// the caller's content in the scope of the yield site) must therefore switch back by a *deferred* statement registered
+// before anything that can fail: with a plain statement, a failure of the content leaves the foreign chain in place,
+// the still-open lists of the block pop *its* scopes — past the bottom for two or more, a nil dereference that
+// replaces the template's error and is re-panicked out of Execute.
+func c07scopeSwap(c *an.Ctx) {
+	p := c.P
+	inside := p.Reach(p.Fn("(*Runtime).executeList"))
+	n := 0
+	for _, f := range p.Units() {
+		if f.Pkg != p.Jet || f.Body == nil || (!inside[f] && !inside[f.Root()]) {
+			continue
+		}
+		switch f.Root().Name {
+		case "(*Runtime).newScope", "(*Runtime).releaseScope":
+			continue
+		}
+		info := f.Info()
+		// recover handlers put the chain back after a failure: not a swap
+		if len(p.CallsIn(f, "builtin.recover")) > 0 {
+			continue
+		}
+		var stores []ast.Expr
+		an.InspectBody(f, func(nd ast.Node) bool {
+			an.Assigns(nd, func(lhs, rhs ast.Expr, _ token.Token) {
+				if p.FieldKey(info, lhs) == "Runtime.scope" && throughRuntime(p, info, lhs) && rhs != nil {
+					stores = append(stores, lhs)
+				}
+			})
+			return true
+		})
+		if len(stores) == 0 {
+			continue
+		}
+		// a literal that is itself the operand of a defer statement restores: its stores are not swaps
+		if f.Lit != nil && deferredInParent(f) {
+			continue
+		}
+		c.FnsAnalysed[f.Name] = true
+		bad := token.NoPos
+		what := ""
+		x := p.NewExplorer(f, an.Hooks{
+			PreAssign: func(x *an.Explorer, lhs, rhs ast.Expr, stmt ast.Node, st *an.State) {
+				if id, ok := an.Unparen(lhs).(*ast.Ident); ok && rhs != nil && p.FieldKey(info, rhs) == "Runtime.scope" {
+					st.Set("saved", id.Name)
+					return
+				}
+				if p.FieldKey(info, lhs) != "Runtime.scope" || !throughRuntime(p, info, lhs) || rhs == nil {
+					return
+				}
+				if id, ok := an.Unparen(rhs).(*ast.Ident); ok && id.Name == st.Get("saved") {
+					st.Set("swapped", "") // the plain switch back
+					return
+				}
+				if st.Get("dres") == "" {
+					st.Set("swapped", p.RelPos(lhs.Pos()))
+				}
+			},
+			Defer: func(x *an.Explorer, d *ast.DeferStmt, st *an.State) {
+				if fl, ok := an.Unparen(d.Call.Fun).(*ast.FuncLit); ok {
+					ast.Inspect(fl.Body, func(nd ast.Node) bool {
+						an.Assigns(nd, func(lhs, rhs ast.Expr, _ token.Token) {
+							if p.FieldKey(info, lhs) == "Runtime.scope" && rhs != nil {
+								if id, ok := an.Unparen(rhs).(*ast.Ident); ok && id.Name == st.Get("saved") {
+									st.Set("dres", "1")
+								}
+							}
+						})
+						return true
+					})
+				}
+			},
+			Call: func(x *an.Explorer, call *ast.CallExpr, st *an.State) {
+				if st.Get("swapped") != "" && st.Get("dres") == "" && !bad.IsValid() && !c11cannotPanic(p, f, call, 0) {
+					bad, what = call.Pos(), an.Str(call.Fun)
+				}
+			},
+		})
+		x.Run(nil)
+		c.States += x.Visited
+		n++
+		key := f.Name + "/swap-deferred"
+		switch {
+		case x.Undecided != "":
+			c.Undecided("C07.scope", key, f.Pos(), "%s", x.Undecided)
+		case bad.IsValid():
+			c.Bad("C07.scope", key, bad, nil, "%s switches Runtime.scope to another chain and calls %s before a deferred statement that switches back is registered: if that call fails, the lists still open below release their scopes on the foreign chain (past its bottom: a nil dereference replaces the template's error and escapes Execute)", f.Name, what)
+		default:
+			c.OK("C07.scope", key, f.Pos(), "Runtime.scope is switched to another chain only under a deferred switch back")
+		}
+	}
+	c.Expect("C07.scope", "functions inside the evaluation that switch Runtime.scope to another chain", n, 1)
 }
